@@ -155,3 +155,27 @@ PROPS = {
     "C09": {}, "C10": {}, "C11": {}, "C12": {}, "C13": {}, "C14": {}, "C15": {}, "C16": {}, "C17": {},
     "C18": {}, "C19": {"nontrivial": ["persist_with_pending", "len_ge_3"]}, "C20": {},
 }
+
+
+# ---- impl -> spec: random histories of the real code validated against the spec --------------------
+def tr(name, cfg, module, *args):
+    return {"name": name, "cfg": cfg, "module": module, "args": list(args)}
+
+
+ENGINES["orswot"]["traces"] = {
+    "quick": [tr("fifo4", "trace_orswot.cfg", "Trace_Orswot.tla", "--n", 4, "--m", 3, "--histories", 20, "--steps", 60, "--maxops", 14, "--regime", "fifo", "--merge", "--snap")],
+    "thorough": [tr("fifo4", "trace_orswot.cfg", "Trace_Orswot.tla", "--n", 4, "--m", 3, "--histories", 150, "--steps", 70, "--maxops", 16, "--regime", "fifo", "--merge", "--snap")],
+}
+ENGINES["orswot"]["trace_props"] = {"members": ["C04", "C01", "C03", "C08", "C09"], "ctx": ["C07", "C04"], "canon": ["C20"], "op": ["C07"]}
+ENGINES["mvreg"]["traces"] = {
+    "quick": [tr("any4", "trace_mvreg.cfg", "Trace_MVReg.tla", "--n", 4, "--m", 2, "--histories", 20, "--steps", 60, "--maxops", 12, "--regime", "any", "--merge", "--snap")],
+    "thorough": [tr("any4", "trace_mvreg.cfg", "Trace_MVReg.tla", "--n", 4, "--m", 2, "--histories", 150, "--steps", 70, "--maxops", 14, "--regime", "any", "--merge", "--snap")],
+}
+ENGINES["mvreg"]["trace_props"] = {"values": ["C06", "C01", "C03", "C08", "C09"], "ctx": ["C07", "C06"], "canon": ["C20"], "op": ["C07", "C06"]}
+for _e, _d in (("map_or", "or"), ("map_mv", "mv"), ("map_map_mv", "map_mv"), ("map_map_or", "map_or")):
+    ENGINES[_e]["traces"] = {
+        "quick": [tr("causal4", "trace_map_%s.cfg" % _d, "Trace_Map.tla", "--n", 4, "--m", 2, "--k", 3, "--histories", 15, "--steps", 50, "--maxops", 10, "--regime", "causal", "--merge")],
+        "thorough": [tr("causal4", "trace_map_%s.cfg" % _d, "Trace_Map.tla", "--n", 4, "--m", 2, "--k", 3, "--histories", 100, "--steps", 60, "--maxops", 12, "--regime", "causal", "--merge"),
+                     tr("fifo4", "trace_map_%s.cfg" % _d, "Trace_Map.tla", "--n", 4, "--m", 2, "--k", 3, "--histories", 100, "--steps", 60, "--maxops", 12, "--regime", "fifo", "--merge")],
+    }
+    ENGINES[_e]["trace_props"] = {"keys": ["C05", "C01", "C03"], "topctx": ["C07", "C08"], "contents": ["C05", "C01", "C03", "C08"], "op": ["C07"]}
